@@ -81,7 +81,7 @@ func (reader *SSTableReader) getValueAtOffset(iVal IndexVal, skipHashCheck bool)
 	if reader.v0DataReader != nil {
 		value := &proto.DataEntry{}
 		_, err := reader.v0DataReader.ReadNextAt(value, iVal.Offset)
-		if err != nil && err != io.EOF {
+		if err != nil {
 			return nil, fmt.Errorf("error in sstable '%s' while getting value at offset %d: %w",
 				reader.opts.basePath, iVal.Offset, err)
 		}
@@ -89,7 +89,7 @@ func (reader *SSTableReader) getValueAtOffset(iVal IndexVal, skipHashCheck bool)
 		v = value.Value
 	} else {
 		v, err = reader.dataReader.ReadNextAt(iVal.Offset)
-		if err != nil && err != io.EOF {
+		if err != nil {
 			return nil, fmt.Errorf("error in sstable '%s' while getting value at offset %d: %w",
 				reader.opts.basePath, iVal.Offset, err)
 		}
